@@ -68,6 +68,14 @@ def specEv : Event → KV.Spec.Mux.Ev
   | .lone seq _ => .ended (wire seq)
   | _ => .other
 
+/-- the events as the second reference monitor reads them: who is waiting in waitResponse -/
+def waitEv : Event → KV.Spec.Mux.WEv
+  | .write _ ok id => .wrote id ok
+  | .take seq => .left (wire seq)
+  | .peekErr seq => .left (wire seq)
+  | .lone seq _ => .noProgress (wire seq)
+  | _ => .other
+
 def showResult (tag : Nat) : Status → String
   | .done (.resp _ f) => s!"{tag}:ok:{f.tag}"
   | .done (.kafkaErr _ _) => s!"{tag}:kafka"
@@ -92,7 +100,7 @@ def handle (stream events tags noPayload impl : String) : String :=
         | some i => s!"reject@{i}:{(commaList events).getD i "?"}"
         | none => "reject"
     -- monitors on what the implementation did: payload tags at the API, and no in-flight id reused on the wire
-    answer model (tagsHold impl && KV.Spec.Mux.idsUnique (es.map specEv))
+    answer model (tagsHold impl && KV.Spec.Mux.idsUnique (es.map specEv) && KV.Spec.Mux.noProgressOnlyAlone (es.map waitEv))
   | _, _, _ => "bad-op"
 
 end Mux
@@ -234,6 +242,29 @@ def step (line : String) : String :=
     | ["tconn", journals, events, tags] => TConn.handle journals events tags impl
     | ["bb", ver, offset, declared, stream, ops] => BB.handle ver offset declared stream ops impl
     | ["dl", _, script] => DL.handle script impl
+    | ["a0", kind, tag] =>
+      -- a request without response (produce, RequiredAcks = 0), then a tagged request to the same broker, as
+      -- Model/TransportConn sees them: written whole → `done errKeep` (nothing is due, the conn is kept and serves the next
+      -- request); write failed → `done err`, the conn leaves, the next request gets a fresh one
+      match tag.toNat? with
+      | none => "bad-op"
+      | some t =>
+        let q : KV.ConnMux.Frame := ⟨2, t⟩
+        let es : List TransportConn.Event :=
+          if kind == "whole" then [.new 1 1 1 [⟨3, t⟩], .recv 1 0, .done 1 .errKeep, .release 1 true, .grab 1, .recv 1 t, .done 1 .ok]
+          else [.new 1 1 1 [], .recv 1 0, .done 1 .err, .exit 1, .new 2 1 1 [q], .recv 2 t, .done 2 .ok]
+        match TransportConn.run es with
+        | none => "model=reject holds=0"
+        | some s =>
+          let qres := match s.delivered.find? (·.tag == t) with
+            | some d => s!"ok:{d.frame.tag}"
+            | none => "err"
+          let model := (if kind == "whole" then "P:sent:1" else "P:err") ++ ",Q:" ++ qres
+          -- monitor: a call reported as completed was received whole by the broker, and the answer is the one to the request
+          let holds := match impl.splitOn "," with
+            | [p, qq] => p != "P:sent:0" && (!qq.startsWith "Q:ok:" || qq == s!"Q:ok:{t}")
+            | _ => false
+          answer model holds
     | ["disc", _, _, script] =>
       -- the refresh loop as Model/PoolDiscover reads it: every refresh applies the outcome of its own request
       let ev : String → Option PoolDiscover.Event := fun w =>
